@@ -42,6 +42,7 @@ SQL_CREATED_DATABASE = Template("SELECT 'Database ${name} successfully created.'
 SQL_CREATED_SCHEMA = Template("SELECT 'Schema ${name} successfully created.' as 'status'")
 SQL_CREATED_TABLE = Template("SELECT 'Table ${name} successfully created.' as 'status'")
 SQL_CREATED_VIEW = Template("SELECT 'View ${name} successfully created.' as 'status'")
+SQL_ALREADY_EXISTS = Template("SELECT '${name} already exists, statement succeeded.' as 'status'")
 SQL_DROPPED = Template("SELECT '${name} successfully dropped.' as 'status'")
 SQL_INSERTED_ROWS = Template("SELECT ${count} as 'number of rows inserted'")
 SQL_UPDATED_ROWS = Template("SELECT ${count} as 'number of rows updated', 0 as 'number of multi-joined rows updated'")
@@ -373,7 +374,8 @@ class FakeSnowflakeCursor:
                 result_sql = SQL_CREATED_SCHEMA.substitute(name=ident)
 
             elif cmd == "CREATE TABLE" and ident:
-                result_sql = SQL_CREATED_TABLE.substitute(name=ident)
+                # CREATE TABLE IF NOT EXISTS over an existing table says so
+                result_sql = (SQL_ALREADY_EXISTS if create_is_noop else SQL_CREATED_TABLE).substitute(name=ident)
 
             elif cmd.startswith("ALTER") and ident:
                 result_sql = SQL_SUCCESS
